@@ -1,6 +1,8 @@
 import KcpVerif.Lemmas.Sched
 import KcpVerif.Lemmas.SchedSource
 import KcpVerif.Lemmas.SchedLive
+import KcpVerif.Lemmas.SchedFair
+import KcpVerif.Lemmas.SchedClose
 /-!
 C17 — timed scheduler: every task runs exactly once, never early.
 
@@ -12,10 +14,16 @@ semantics (`Mode.sync` = `asynctimerchan=0`, `Mode.async` = `asynctimerchan=1`);
 Every theorem holds for both modes and every `k` (they are universally quantified).
 
 Tier of each claim: safety (at most once, never dropped, never early, drain never blocks, timer
-armed for the heap minimum, no lost wake-up, no deadlock) is proved; liveness under weak
-fairness is stated (`C17_exactly_once_full`) and only its safety half, deadlock-freedom and the
-possibility of completion from every reachable state (`C17_can_always_complete`) are proved
-(`C17_exactly_once_partial`).
+armed for the heap minimum, no lost wake-up, no deadlock), the possibility of completion from every
+reachable state (`C17_can_always_complete`) and — second round, at the end of this file —
+liveness are proved: `C17_exactly_once` (= `C17_exactly_once_full`: weak fairness per action),
+`C17_exactly_once_goroutine_fair` (weak fairness per goroutine), `C17_eventually_done` (the
+weakest assumption: the system never idles for ever while a step is enabled), each for runs in
+which submissions eventually pause and time diverges; `C17_bounded_work` bounds the number of
+scheduler/runtime steps after the last deadline for ANY schedule.  `Close`: `C17_close_safety`,
+`C17_close_no_goroutine_blocks`, `C17_close_frozen`.  Not claimed: liveness under an unbounded
+stream of `Put`s (needs the fairness of Go's randomised `select` and prompt runtime timers, which
+are outside the model), and wall-clock latency.
 -/
 namespace KcpVerif.Props
 open KcpVerif KcpVerif.Sched
@@ -219,10 +227,9 @@ structure FairRun (m : Mode) (k : Nat) (t0 : Time) where
   timeDiverges : ∀ T, ∃ n, T ≤ (st n).now
 
 /-- the full liveness claim: in every fair run every submitted task is eventually executed
-    (exactly once, by `C17_exactly_one_place`).  NOT proved: it needs a ranking argument over
-    `(|pre| + |batch|, heap sizes, timer state, now)`; for unboundedly many submissions it needs in
-    addition the fairness of Go's `select` and the promptness of the runtime's timers, which are
-    outside the model. -/
+    (exactly once, by `C17_exactly_one_place`).  PROVED below as `C17_exactly_once` (second round).
+    For unboundedly many submissions a claim of this kind would need in addition the fairness of
+    Go's `select` and the promptness of the runtime's timers, which are outside the model. -/
 def C17_exactly_once_full : Prop :=
   ∀ (m : Mode) (k : Nat) (t0 : Time), 0 < k → ∀ r : FairRun m k t0, ∀ n t, t ∈ (r.st n).sub →
     ∃ n', ((r.st n').done.map (·.task)).count t = 1
@@ -308,6 +315,266 @@ example : ∃ why, obsRun ObsState.init [.put 1 100 0, .put 2 5 1, .exec 2 7, .f
 
 /-- a step that is NOT enabled: draining an empty channel (this is the hang `drained` prevents) -/
 example : wstep .async 5 (Worker.mk (.stopped 0 false) [⟨1, 9⟩] ⟨none, none⟩ false 0 0) .drain = none := by
+  decide
+
+end KcpVerif.Props
+
+/-! ### liveness under fairness (second round) -/
+namespace KcpVerif.Props
+open KcpVerif KcpVerif.Sched
+
+/-- **exactly once — the full claim** `C17_exactly_once_full`, proved: in every infinite run of the
+    transition system (both timer modes, any `k ≥ 1`, any interleaving) in which submissions
+    eventually pause, every action that stays enabled is eventually taken (weak fairness of the
+    producers' notify, of prepend, of each worker; the runtime eventually fires a due timer) and
+    time diverges, every submitted task is eventually executed — exactly once.
+    The argument is a variant that decreases with every scheduler/runtime step once the clock has
+    passed the last deadline (`Lemmas/SchedFair.lean`); before that point no state-based ranking
+    exists because of the `v = ts` spin, which only the divergence of time ends. -/
+theorem C17_exactly_once : C17_exactly_once_full := by
+  intro m k t0 hk r n t ht
+  obtain ⟨N0, hN0⟩ := r.putsPause
+  have hrun : IsRun m k t0 r.st r.lab := ⟨r.start, r.next⟩
+  obtain ⟨N2, hN2, hq⟩ := hrun.eventually_quiescent hk hN0 r.fair r.fairFire r.timeDiverges
+  refine ⟨N2, ?_⟩
+  have ht2 : t ∈ (r.st N2).sub := by
+    have h1 := hrun.sub_mono (Nat.le_max_left n N2) ht
+    have hle : N0 ≤ max n N2 := Nat.le_trans hN2 (Nat.le_max_right n N2)
+    rw [hrun.sub_fixed hN0 hle, ← hrun.sub_fixed hN0 hN2] at h1
+    exact h1
+  have hone := C17_exactly_one_place (hrun.reach N2) t ht2
+  simpa [hq] using hone
+
+/-- … and from some point on NOTHING is pending any more, for ever (all submitted tasks are in
+    `done`, the observable log ends in an accepted `end`) -/
+theorem C17_eventually_all_done {m : Mode} {k : Nat} {t0 : Time} (hk : 0 < k) (r : FairRun m k t0) :
+    ∃ N, ∀ n, N ≤ n → pendingTasks (r.st n) = [] ∧
+      ∀ t, t ∈ (r.st n).sub → ((r.st n).done.map (·.task)).count t = 1 := by
+  obtain ⟨N0, hN0⟩ := r.putsPause
+  have hrun : IsRun m k t0 r.st r.lab := ⟨r.start, r.next⟩
+  obtain ⟨N2, hN2, hq⟩ := hrun.eventually_quiescent hk hN0 r.fair r.fairFire r.timeDiverges
+  refine ⟨N2, fun n hn => ?_⟩
+  have hpend : pendingTasks (r.st n) = [] := by
+    -- no Put after N2: `sub` is fixed, `done` only grows, so the number of pending tasks cannot grow
+    have hl2 := pending_length (hrun.reach N2)
+    have hln := pending_length (hrun.reach n)
+    rw [hrun.sub_fixed hN0 (Nat.le_trans hN2 hn), ← hrun.sub_fixed hN0 hN2] at hln
+    have hdone : (r.st N2).done.length ≤ (r.st n).done.length := by
+      clear hln
+      induction hn with
+      | refl => exact Nat.le_refl _
+      | step hle ih =>
+        exact Nat.le_trans ih (step_noput (r.next _) (hN0 _ (Nat.le_trans hN2 hle))).2
+    rw [hq] at hl2
+    simp only [List.length_nil, Nat.zero_add] at hl2
+    exact List.eq_nil_of_length_eq_zero (by omega)
+  refine ⟨hpend, fun t ht => ?_⟩
+  have hone := C17_exactly_one_place (hrun.reach n) t ht
+  simpa [hpend] using hone
+
+/-- **bounded work after the last deadline**: once the clock has passed every submitted deadline
+    (`D < now`), ANY schedule without new `Put`s — fair or not — contains at most `mu D s` steps of
+    the scheduler and the runtime (`mu`: 3·pend + 2·[token] + [prepend has the token] + 3·|pre| +
+    2·|batch| + Σ workers (heap size + a constant ≤ 7)); all that can happen afterwards is the
+    passing of time.  Together with `C17_no_deadlock` (a step is enabled while a task is pending):
+    a schedule that never idles while a step is enabled completes every task within `mu D s`
+    steps. -/
+theorem C17_bounded_work {m : Mode} {k : Nat} {t0 D : Time} {s s' : State} {ls : List Label}
+    (h : Reachable m k t0 s) (hD : D < s.now) (hsub : ∀ t, t ∈ s.sub → t.ts ≤ D) (hnp : NoPut ls)
+    (hr : run m s ls = some s') : nonTicks ls + mu D s' ≤ mu D s :=
+  bounded_work h hD hsub hnp hr
+
+end KcpVerif.Props
+
+namespace KcpVerif.Props
+open KcpVerif KcpVerif.Sched
+
+/-! ### non-vacuity of the liveness theorem: a concrete fair run with a task -/
+
+def demoFair (m : Mode) : FairRun m 1 0 where
+  st := fairSt m
+  lab := fairLab
+  start := by cases m <;> decide
+  next := by
+    intro n
+    by_cases h : n < 17
+    · exact fair_next_prefix m n h
+    · have h' : 17 ≤ n := Nat.not_lt.mp h
+      rw [fairSt_tail m n h', fairSt_tail m (n + 1) (by omega), fairLab_tail n h', step_tick]
+      have : 6 + (n - 17) + 1 = 6 + (n + 1 - 17) := by omega
+      simp only [this]
+  putsPause := ⟨17, fun n hn id ts he => by rw [fairLab_tail n hn] at he; cases he⟩
+  fair := by
+    intro l hp ht _ N hen
+    have := hen (max N 17) (Nat.le_max_left _ _)
+    rw [fairSt_tail m _ (Nat.le_max_right _ _), fairFin_dead m _ l hp ht] at this
+    cases this
+  fairFire := by
+    intro i N hen
+    obtain ⟨v, hv⟩ := hen (max N 17) (Nat.le_max_left _ _)
+    rw [fairSt_tail m _ (Nat.le_max_right _ _), fairFin_dead m _ _ (by simp) (by simp)] at hv
+    cases hv
+  timeDiverges := by
+    intro T
+    refine ⟨17 + T, ?_⟩
+    rw [fairSt_tail m _ (Nat.le_add_right _ _)]
+    show (T : Nat) ≤ 6 + (17 + T - 17)
+    unfold Time at *
+    omega
+
+/-- the hypotheses of `C17_exactly_once` are satisfiable by a run that really submits a task: task 1
+    is submitted at step 3 … -/
+example (m : Mode) : (⟨1, 5⟩ : Task) ∈ ((demoFair m).st 4).sub := by cases m <;> decide
+/-- … is still pending at step 12 … -/
+example (m : Mode) : pendingTasks ((demoFair m).st 12) = [⟨1, 5⟩] := by cases m <;> decide
+/-- … and the theorem says it is eventually executed exactly once (here: from step 16 on) -/
+example (m : Mode) : ∃ n', (((demoFair m).st n').done.map (·.task)).count ⟨1, 5⟩ = 1 :=
+  C17_exactly_once m 1 0 (by decide) (demoFair m) 4 ⟨1, 5⟩ (by cases m <;> decide)
+example (m : Mode) : (((demoFair m).st 16).done.map (·.task)).count ⟨1, 5⟩ = 1 := by cases m <;> decide
+
+end KcpVerif.Props
+
+/-! ### liveness under weak fairness per goroutine, and without idling -/
+namespace KcpVerif.Props
+open KcpVerif KcpVerif.Sched
+
+/-- once nothing is pending and no `Put` follows, nothing is pending ever after and every
+    submitted task has run exactly once -/
+theorem C17_quiescent_stays {m : Mode} {k : Nat} {t0 : Time} {st : Nat → State} {lab : Nat → Label}
+    (hrun : IsRun m k t0 st lab) {N0 N2 : Nat} (hN0 : ∀ n, N0 ≤ n → ∀ id ts, lab n ≠ .put id ts)
+    (hN2 : N0 ≤ N2) (hq : pendingTasks (st N2) = []) (n : Nat) (hn : N2 ≤ n) :
+    pendingTasks (st n) = [] ∧ ∀ t, t ∈ (st n).sub → ((st n).done.map (·.task)).count t = 1 := by
+  have hpend : pendingTasks (st n) = [] := by
+    have hl2 := pending_length (hrun.reach N2)
+    have hln := pending_length (hrun.reach n)
+    rw [hrun.sub_fixed hN0 (Nat.le_trans hN2 hn), ← hrun.sub_fixed hN0 hN2] at hln
+    have hdone : (st N2).done.length ≤ (st n).done.length := by
+      clear hln
+      induction hn with
+      | refl => exact Nat.le_refl _
+      | step hle ih =>
+        exact Nat.le_trans ih (step_noput (hrun.next _) (hN0 _ (Nat.le_trans hN2 hle))).2
+    rw [hq] at hl2
+    simp only [List.length_nil, Nat.zero_add] at hl2
+    exact List.eq_nil_of_length_eq_zero (by omega)
+  refine ⟨hpend, fun t ht => ?_⟩
+  have hone := C17_exactly_one_place (hrun.reach n) t ht
+  simpa [hpend] using hone
+
+/-- an infinite run that is weakly fair **per goroutine**: a producer inside `Put`, the prepend
+    goroutine, each worker, and the runtime for each worker's timer (`Owner`), eventually takes a
+    step if it has an enabled step at every moment from some point on; submissions eventually
+    pause; time diverges -/
+structure GoFairRun (m : Mode) (k : Nat) (t0 : Time) where
+  st : Nat → State
+  lab : Nat → Label
+  start : st 0 = init k t0
+  next : ∀ n, step m (st n) (lab n) = some (st (n + 1))
+  putsPause : ∃ N, ∀ n, N ≤ n → ∀ id ts, lab n ≠ .put id ts
+  fair : ∀ g N, (∀ n, N ≤ n → ∃ l, l.owner = some g ∧ (step m (st n) l).isSome) →
+    ∃ n, N ≤ n ∧ (lab n).owner = some g
+  timeDiverges : ∀ T, ∃ n, T ≤ (st n).now
+
+/-- **exactly once under goroutine fairness** (both timer modes, any `k ≥ 1`): from some point on
+    nothing is pending and every submitted task has run exactly once -/
+theorem C17_exactly_once_goroutine_fair {m : Mode} {k : Nat} {t0 : Time} (hk : 0 < k)
+    (r : GoFairRun m k t0) :
+    ∃ N, ∀ n, N ≤ n → pendingTasks (r.st n) = [] ∧
+      ∀ t, t ∈ (r.st n).sub → ((r.st n).done.map (·.task)).count t = 1 := by
+  obtain ⟨N0, hN0⟩ := r.putsPause
+  have hrun : IsRun m k t0 r.st r.lab := ⟨r.start, r.next⟩
+  obtain ⟨N2, hN2, hq⟩ := hrun.eventually_quiescent_go hk hN0 r.fair r.timeDiverges
+  exact ⟨N2, C17_quiescent_stays hrun hN0 hN2 hq⟩
+
+/-- **exactly once for every run that does not idle for ever** — the weakest scheduling assumption
+    the argument needs: whenever some action of the scheduler or of the runtime stays enabled for
+    ever, SOME action other than the passing of time is eventually taken.  (Implied by either
+    notion of weak fairness above; it is what "the Go scheduler runs runnable goroutines and the
+    runtime runs due timers" amounts to.)  Submissions eventually pause, time diverges. -/
+theorem C17_eventually_done {m : Mode} {k : Nat} {t0 : Time} (hk : 0 < k) {st : Nat → State}
+    {lab : Nat → Label} (hrun : IsRun m k t0 st lab) {N0 : Nat}
+    (hpause : ∀ n, N0 ≤ n → ∀ id ts, lab n ≠ .put id ts)
+    (hprog : ∀ l, (∀ id ts, l ≠ .put id ts) → (∀ d, l ≠ .tick d) →
+      ∀ N, (∀ n, N ≤ n → (step m (st n) l).isSome) → ∃ n, N ≤ n ∧ ∀ d, lab n ≠ .tick d)
+    (htime : ∀ T, ∃ n, T ≤ (st n).now) :
+    ∃ N, ∀ n, N ≤ n → pendingTasks (st n) = [] ∧
+      ∀ t, t ∈ (st n).sub → ((st n).done.map (·.task)).count t = 1 := by
+  obtain ⟨N2, hN2, hq⟩ := hrun.eventually_quiescent' hk hpause hprog htime
+  exact ⟨N2, C17_quiescent_stays hrun hpause hN2 hq⟩
+
+/-- `demoFair` is also fair per goroutine (non-vacuity of `C17_exactly_once_goroutine_fair`) -/
+def demoGoFair (m : Mode) : GoFairRun m 1 0 where
+  st := fairSt m
+  lab := fairLab
+  start := (demoFair m).start
+  next := (demoFair m).next
+  putsPause := (demoFair m).putsPause
+  fair := by
+    intro g N hen
+    obtain ⟨l, hg, hl⟩ := hen (max N 17) (Nat.le_max_left _ _)
+    have hp : ∀ id ts, l ≠ .put id ts := fun id ts he => by rw [he] at hg; cases hg
+    have ht : ∀ d, l ≠ .tick d := fun d he => by rw [he] at hg; cases hg
+    rw [fairSt_tail m _ (Nat.le_max_right _ _), fairFin_dead m _ l hp ht] at hl
+    cases hl
+  timeDiverges := (demoFair m).timeDiverges
+
+end KcpVerif.Props
+
+/-! ### `Close` -/
+namespace KcpVerif.Props
+open KcpVerif KcpVerif.Sched
+
+/-- **safety survives `Close`** (transition system extended by `close`, the `<-ts.die` arms of the
+    three `select`s and `Put` after `Close`, `Lemmas/SchedClose.lean`): conservation, no id executed
+    twice, never early, and every submitted task is in exactly one place — executed once, or still
+    in `prependTasks` / the batch / a worker's hands or heap (where it is abandoned once the
+    goroutines have returned) -/
+theorem C17_close_safety {m : Mode} {k : Nat} {t0 : Time} {cs : CState} (h : CReachable m k t0 cs) :
+    cs.s.sub.Perm (cs.s.pre ++ cs.s.batch ++ heldAll cs.s.ws ++ cs.s.done.map (·.task)) ∧
+    (cs.s.done.map (·.task.id)).Nodup ∧
+    (∀ e, e ∈ cs.s.done → e.task.ts < e.time) ∧
+    ∀ t, t ∈ cs.s.sub → (pendingTasks cs.s).count t + (cs.s.done.map (·.task)).count t = 1 :=
+  ⟨(C17_conservation h.base).1, (C17_conservation h.base).2,
+   fun e he => (C17_never_early h.base e he).1, fun t ht => C17_exactly_one_place h.base t ht⟩
+
+/-- **no step after `Close` blocks for ever**: every goroutine that has not returned yet can move —
+    a worker outside its `select` has an own step (in particular the conditional `<-timer.C` still
+    never blocks), a worker at its `select` can return, the prepend goroutine can return (from
+    either `select`) or finish its swap -/
+theorem C17_close_no_goroutine_blocks {m : Mode} {k : Nat} {t0 : Time} {cs : CState}
+    (h : CReachable m k t0 cs) (hc : cs.closed = true) :
+    (∀ i w, cs.s.ws[i]? = some w → cs.wexited i = false →
+      (cstep m cs (.exitW i)).isSome ∨ ∃ l, (∀ v, l ≠ .fire v) ∧ (cstep m cs (.base (.w i l))).isSome) ∧
+    (cs.pexit = false → (cstep m cs .exitP).isSome ∨ (cstep m cs (.base .swap)).isSome) :=
+  ⟨fun _ _ hw hne => close_worker_not_blocked h hc hw hne, fun hne => close_prepend_not_blocked hc hne⟩
+
+/-- **once every worker has returned nothing runs any more** (`done` never changes again), so a
+    task is executed after `Close` only by a worker that has not yet noticed it -/
+theorem C17_close_frozen {m : Mode} {cs cs' : CState} {l : CLabel}
+    (hall : ∀ i, i < cs.s.ws.length → cs.wexited i = true) (hs : cstep m cs l = some cs') :
+    cs'.s.done = cs.s.done :=
+  close_frozen hall hs
+
+/-- non-vacuity: task 1 (deadline 100) is pushed, then `Close`; worker and prepend return; a `Put`
+    after `Close` is still accepted (the code has no check) — both tasks are abandoned, nothing ran -/
+def demoClose : List CLabel :=
+  [ .base (.w 0 (.fire 0)), .base (.w 0 .recvTimer), .base (.w 0 .loopEnd),
+    .base (.put 1 100), .base .notify, .base .takeToken, .base .swap, .base (.handoff 0),
+    .base (.w 0 .readNow), .close, .base (.w 0 .stop), .base (.w 0 .drain), .base (.w 0 .reset),
+    .exitW 0, .exitP, .base (.put 2 0), .base .notify, .base (.tick 500) ]
+
+example : (crun .sync (cinit 1 0) demoClose).map (fun cs => (cs.closed, cs.pexit, cs.wexit)) =
+    some (true, true, [true]) := by decide
+example : (crun .sync (cinit 1 0) demoClose).map (fun cs => cs.s.done.length) = some 0 := by decide
+example : (crun .sync (cinit 1 0) demoClose).map (fun cs => pendingTasks cs.s) =
+    some [⟨2, 0⟩, ⟨1, 100⟩] := by decide
+example : (crun .async (cinit 1 0) demoClose).map (fun cs => pendingTasks cs.s) =
+    some [⟨2, 0⟩, ⟨1, 100⟩] := by decide
+/-- a returned worker's timer does not fire, a returned worker takes no task -/
+example : ((crun .sync (cinit 1 0) demoClose).bind (fun cs => cstep .sync cs (.base (.w 0 (.fire 500))))) = none := by
+  decide
+/-- the worker cannot return in the middle of its Stop/drain/Reset section -/
+example : ((crun .sync (cinit 1 0) (demoClose.take 10)).bind (fun cs => cstep .sync cs (.exitW 0))) = none := by
   decide
 
 end KcpVerif.Props
